@@ -130,7 +130,7 @@ pub mod accept_spec {
         if tag == 0xa5 { lemma_bulk_body_accepted(rid, f1, f2, names); } else { lemma_get_body_accepted(rid, names); }
     }
 
-    // THEOREM (v1 / v2c): the community message the encoders write is one the decoder must accept
+    // THEOREM (v1 / v2c; v3 below): the community message the encoders write is one the decoder must accept
     pub proof fn theorem_v2c_request_accepted(community: Seq<u8>, tag: u8, rid: i64, f1: i64, f2: i64, names: Seq<Seq<u8>>)
         requires
             (tag == 0xa0 || tag == 0xa1) && f1 == 0 && f2 == 0 || tag == 0xa5,
@@ -193,5 +193,152 @@ pub mod accept_spec {
         lemma_octets_accepted(community, pdu);
         assert(pdu =~= pdu + Seq::<u8>::empty());
         lemma_request_pdu_accepted(tag, rid, 0i64, 0i64, names, Seq::<u8>::empty());
+    }
+
+    // ---- v3 layers
+    pub proof fn lemma_usm_accepted(engine_id: Seq<u8>, boots: i64, time: i64, user: Seq<u8>, auth: Seq<u8>, privp: Seq<u8>)
+        requires
+            engine_id.len() <= 65535, user.len() <= 65535, auth.len() <= 65535, privp.len() <= 65535,
+            (enc_octets(engine_id) + enc_int(boots as int) + enc_int(time as int) + enc_octets(user) + enc_octets(auth) + enc_octets(privp)).len() <= 65535,
+        ensures crate::snmp::msg::v3::usm::usm_acc(enc_usm(engine_id, boots as int, time as int, user, auth, privp))
+    {
+        hide(spec_header);
+        hide(spec_content);
+        hide(spec_rest);
+        let p5 = enc_octets(privp);
+        let p4 = enc_octets(auth) + p5;
+        let p3 = enc_octets(user) + p4;
+        let p2 = enc_int(time as int) + p3;
+        let p1 = enc_int(boots as int) + p2;
+        let inner = enc_octets(engine_id) + enc_int(boots as int) + enc_int(time as int) + enc_octets(user) + enc_octets(auth) + enc_octets(privp);
+        assert(inner =~= enc_octets(engine_id) + p1);
+        let u = enc_usm(engine_id, boots as int, time as int, user, auth, privp);
+        assert(u =~= tlv(0x30, inner) + Seq::<u8>::empty());
+        lemma_seq_accepted(inner, Seq::<u8>::empty());
+        lemma_tlv_reads_back(0x30, inner, Seq::<u8>::empty());
+        lemma_octets_accepted(engine_id, p1);
+        lemma_tlv_reads_back(4, engine_id, p1);
+        lemma_int_accepted(boots, p2);
+        lemma_enc_int_reads_back(boots, p2);
+        lemma_int_accepted(time, p3);
+        lemma_enc_int_reads_back(time, p3);
+        lemma_octets_accepted(user, p4);
+        lemma_tlv_reads_back(4, user, p4);
+        lemma_octets_accepted(auth, p5);
+        lemma_tlv_reads_back(4, auth, p5);
+        assert(p5 =~= tlv(4, privp) + Seq::<u8>::empty());
+        lemma_octets_accepted(privp, Seq::<u8>::empty());
+    }
+
+    // plaintext ScopedPDU carrying a request PDU, followed by anything (cipher padding)
+    pub proof fn lemma_scoped_accepted(engine_id: Seq<u8>, pdu: Seq<u8>, pad: Seq<u8>)
+        requires
+            engine_id.len() <= 65535, (enc_octets(engine_id) + enc_octets(Seq::<u8>::empty()) + pdu).len() <= 65535,
+            crate::snmp::pdu::pdu_acc(pdu),
+        ensures crate::snmp::msg::v3::scoped::scoped_acc(enc_scoped(engine_id, pdu) + pad)
+    {
+        hide(spec_header);
+        hide(spec_content);
+        hide(spec_rest);
+        let e = Seq::<u8>::empty();
+        let inner = enc_octets(engine_id) + enc_octets(e) + pdu;
+        lemma_seq_accepted(inner, pad);
+        lemma_tlv_reads_back(0x30, inner, pad);
+        assert(inner =~= enc_octets(engine_id) + (enc_octets(e) + pdu));
+        lemma_octets_accepted(engine_id, enc_octets(e) + pdu);
+        lemma_tlv_reads_back(4, engine_id, enc_octets(e) + pdu);
+        lemma_octets_accepted(e, pdu);
+        lemma_tlv_reads_back(4, e, pdu);
+    }
+
+    // THEOREM (v3): the SNMPv3Message image is accepted whenever its USM parameters and msgData are
+    pub proof fn theorem_v3_message_accepted(msg_id: i64, flags: u8, usm: Seq<u8>, data: Seq<u8>)
+        requires
+            usm.len() <= 65535,
+            (enc_int(3) + tlv(0x30, enc_int(msg_id as int) + enc_int(2048) + tlv(4, seq![flags]) + enc_int(3)) + tlv(4, usm) + data).len() <= 65535,
+            crate::snmp::msg::v3::usm::usm_acc(usm),
+            crate::snmp::msg::v3::data::data_acc(data),
+        ensures crate::snmp::msg::v3::msg::v3_acc(enc_v3(msg_id as int, flags, usm, data))
+    {
+        hide(spec_header);
+        hide(spec_content);
+        hide(spec_rest);
+        let g = enc_int(msg_id as int) + enc_int(2048) + tlv(4, seq![flags]) + enc_int(3);
+        let inner = enc_int(3) + tlv(0x30, g) + tlv(4, usm) + data;
+        let m = enc_v3(msg_id as int, flags, usm, data);
+        assert(m =~= tlv(0x30, inner) + Seq::<u8>::empty());
+        lemma_seq_accepted(inner, Seq::<u8>::empty());
+        lemma_tlv_reads_back(0x30, inner, Seq::<u8>::empty());
+        assert(inner =~= enc_int(3) + (tlv(0x30, g) + (tlv(4, usm) + data)));
+        lemma_int_accepted(3i64, tlv(0x30, g) + (tlv(4, usm) + data));
+        lemma_enc_int_reads_back(3i64, tlv(0x30, g) + (tlv(4, usm) + data));
+        lemma_tlv_len(2, int_octets(msg_id as int));
+        lemma_tlv_len(2, int_octets(2048));
+        lemma_tlv_len(2, int_octets(3));
+        lemma_i64_roundtrip(msg_id);
+        lemma_i64_roundtrip(2048i64);
+        lemma_i64_roundtrip(3i64);
+        lemma_seq_accepted(g, tlv(4, usm) + data);
+        lemma_tlv_reads_back(0x30, g, tlv(4, usm) + data);
+        let t3 = enc_int(3);
+        let t2 = tlv(4, seq![flags]) + t3;
+        let t1 = enc_int(2048) + t2;
+        assert(g =~= enc_int(msg_id as int) + t1);
+        lemma_int_accepted(msg_id, t1);
+        lemma_enc_int_reads_back(msg_id, t1);
+        lemma_int_accepted(2048i64, t2);
+        lemma_enc_int_reads_back(2048i64, t2);
+        lemma_octets_accepted(seq![flags], t3);
+        lemma_tlv_reads_back(4, seq![flags], t3);
+        assert(t3 =~= enc_int(3) + Seq::<u8>::empty());
+        lemma_int_accepted(3i64, Seq::<u8>::empty());
+        lemma_enc_int_reads_back(3i64, Seq::<u8>::empty());
+        lemma_octets_accepted(usm, data);
+        lemma_tlv_reads_back(4, usm, data);
+    }
+
+    // THEOREM (v3, as the library emits it): USM parameters from the encoder, msgData either the plaintext ScopedPDU of a request
+    // or an OCTET STRING of ciphertext
+    pub proof fn theorem_v3_request_accepted(msg_id: i64, flags: u8, engine_id: Seq<u8>, boots: i64, time: i64, user: Seq<u8>, auth: Seq<u8>,
+                                             privp: Seq<u8>, ctx: Seq<u8>, tag: u8, rid: i64, f1: i64, f2: i64, names: Seq<Seq<u8>>, ct: Seq<u8>, encrypted: bool)
+        requires
+            (tag == 0xa0 || tag == 0xa1) && f1 == 0 && f2 == 0 || tag == 0xa5,
+            names_fit(names), names_whole(names),
+            engine_id.len() <= 65535, user.len() <= 65535, auth.len() <= 65535, privp.len() <= 65535, ctx.len() <= 65535, ct.len() <= 65535,
+            enc_v3(msg_id as int, flags, enc_usm(engine_id, boots as int, time as int, user, auth, privp),
+                   if encrypted { enc_octets(ct) } else { enc_scoped(ctx, tlv(tag, enc_pdu_body(rid as int, f1 as int, f2 as int, names))) }).len() <= 65535,
+        ensures
+            crate::snmp::msg::v3::msg::v3_acc(enc_v3(msg_id as int, flags, enc_usm(engine_id, boots as int, time as int, user, auth, privp),
+                   if encrypted { enc_octets(ct) } else { enc_scoped(ctx, tlv(tag, enc_pdu_body(rid as int, f1 as int, f2 as int, names))) })),
+    {
+        let usm = enc_usm(engine_id, boots as int, time as int, user, auth, privp);
+        let body = enc_pdu_body(rid as int, f1 as int, f2 as int, names);
+        let pdu = tlv(tag, body);
+        let data = if encrypted { enc_octets(ct) } else { enc_scoped(ctx, pdu) };
+        let uin = enc_octets(engine_id) + enc_int(boots as int) + enc_int(time as int) + enc_octets(user) + enc_octets(auth) + enc_octets(privp);
+        let g = enc_int(msg_id as int) + enc_int(2048) + tlv(4, seq![flags]) + enc_int(3);
+        let inner = enc_int(3) + tlv(0x30, g) + tlv(4, usm) + data;
+        // sizes: every part is shorter than the whole
+        lemma_tlv_len(0x30, inner);
+        lemma_tlv_len(0x30, g);
+        lemma_tlv_len(4, usm);
+        lemma_tlv_len(0x30, uin);
+        lemma_usm_accepted(engine_id, boots, time, user, auth, privp);
+        if encrypted {
+            assert(enc_octets(ct) =~= enc_octets(ct) + Seq::<u8>::empty());
+            lemma_octets_accepted(ct, Seq::<u8>::empty());
+        } else {
+            let sin = enc_octets(ctx) + enc_octets(Seq::<u8>::empty()) + pdu;
+            lemma_tlv_len(0x30, sin);
+            lemma_tlv_len(4, ctx);
+            lemma_tlv_len(4, Seq::<u8>::empty());
+            lemma_tlv_len(tag, body);
+            lemma_tlv_len(0x30, enc_varbinds(names));
+            assert(pdu =~= pdu + Seq::<u8>::empty());
+            lemma_request_pdu_accepted(tag, rid, f1, f2, names, Seq::<u8>::empty());
+            lemma_scoped_accepted(ctx, pdu, Seq::<u8>::empty());
+            assert(enc_scoped(ctx, pdu) =~= enc_scoped(ctx, pdu) + Seq::<u8>::empty());
+        }
+        theorem_v3_message_accepted(msg_id, flags, usm, data);
     }
 }
